@@ -585,7 +585,10 @@ def do_step(ctx, w, rng, mode, grammar=1):
     elif op in ("getatom", "iteratom"):
         k = rng.randrange(max(1, nl))
         if op == "getatom":
-            fn = lambda: o[k]
+            # the index as a plain int or as a numpy integer (np.argmax, np.where(...)[0][j]): the same live view
+            # (seed C18-7: non-`int` indices routed to the list of COPIED atoms)
+            kk = np.int64(k) if (k + i) % 3 == 0 else k
+            fn = lambda: o[kk]
         else:
             fn = lambda: next(itertools.islice(iter(o), k, None))
         st, _ = w.run(f"{op} {i} {k}", f"{kind}[{i}] {op} {k}", fn,
@@ -766,8 +769,11 @@ def oracle_step(ctx, case, w, rec, before, after, stepno):
             # after `remove_atom` on the parent the k-th place may hold another atom (or none)
             pats = hg.gro_atoms(w.env[par])
             if not (m["k"] < len(pats) and pats[m["k"]] is hg.gro_atoms(w.env[i])[0]):
-                ctx.count("view-detached-by-remove_atom")
-                par = None
+                if getattr(w, "some_remove_succeeded", False):
+                    ctx.count("view-detached-by-remove_atom")
+                    par = None
+                # otherwise nothing was ever removed: the view SHOULD be the parent's k-th atom; the write-through
+                # check below decides (seed C18-7: an index of numpy integer type handed out a copy)
         if par is not None and m.get("k") is not None:
             pob = after[par]
             k = m["k"]
@@ -790,7 +796,11 @@ def oracle_step(ctx, case, w, rec, before, after, stepno):
     # --- rigid operations
     if ok and rec["op"] in ("move", "moveto", "rotate"):
         P, Q = positions_of(before[i]), positions_of(after[i])
-        if len(P):
+        if len(P) and np.isfinite(P).all() and not np.isfinite(Q).all():
+            # finite coordinates in, NaN / inf out: no distance is "preserved" (comparisons with NaN are silently
+            # false, so this has to be said explicitly; seed C18-8: 0/0 for an atom sitting on the centre)
+            fails.append(("rigid:non-finite:" + rec["op"] + ":" + rec["kind"], {"after": Q}))
+        elif len(P):
             dP, dQ = pdist(P), pdist(Q)
             if np.abs(dP - dQ).max() > TOL * max(1.0, dP.max()):
                 fails.append(("rigid:distances:" + rec["op"] + ":" + rec["kind"],
@@ -1024,6 +1034,8 @@ def evaluate(ctx, case):
         rec = do_step(ctx, w, rng, mode, grammar)
         after = w.snaps[-1]
         ctx.count(f"op:{rec['op']}:{rec['kind']}:{rec['status']}")
+        if rec["op"] == "remove" and rec["status"] == "ok":
+            w.some_remove_succeeded = True
         if rec["kind"] == "mol" and after[rec["i"]][0] == "MR":
             ctx.count(f"ragged-molecule:{rec['op']}:{rec['status']}")
         if rec["status"] == "ok":
